@@ -198,6 +198,10 @@ func alphabet() []call {
 			f, err := rw.Sniff(strings.NewReader("# c\n'SPDX-2.2'\n"))
 			return fmt.Sprintf("%s/%v", f, err != nil)
 		}},
+		{"Sniff(not JSON, one line of 96 KiB)", func(i int) string {
+			f, err := rw.Sniff(strings.NewReader("<bom>" + strings.Repeat("x", 96<<10) + "</bom>\nSPDXVersion: SPDX-2.3\n"))
+			return fmt.Sprintf("%s/%v", f, err != nil)
+		}},
 		{"ParseStream(private)", func(i int) string {
 			d, err := reader.New().ParseStream(bytes.NewReader(spdxBytes[i]))
 			if err != nil {
